@@ -178,6 +178,10 @@ async def scenario(loop, case, out, stats, fps, samples):
             ctx = f"{mode}/{case['policy']}" + ("/rec" if case["rec"] else "")
             fps.add(f"{kind}/{N}/{pat}/{case['policy']}/{int(case['rec'])}/{mode}")
             stats["chains_judged"] += 1
+            # every scheduling of the job carries the budget it was enqueued with (a recurring job's next run gets N again)
+            lost = [e for e in starts if e.get("retries_max") not in (None, N)]
+            if lost:
+                out.append(V("attempt_count", kind, "retry-budget-changed" + ("/rec" if case["rec"] else ""), f"{id_} enqueued with retries={N}: execution #{starts.index(lost[0]) + 1} (attempt {lost[0]['attempt']}) saw a budget of {lost[0]['retries_max']}"))
             # expected number of executions
             if mode == "ladder":
                 fail_prefix = len(pat) - 1 if pat.endswith("S") else len(pat)
